@@ -210,7 +210,7 @@ theorem acceptCore_inv {seen : Nat → Prop} (a : Acc) (op : TOp) (h : ∀ s ∈
         · intro s hs
           simp only [goodNoAck] at hs
           exact hmono s (brOK_advanceAll a.branches t h s (dedup_subset _ _ (List.mem_filter.1 hs).1))
-  | acked rs =>
+  | acked rs tm =>
     simp only [acceptCore, acceptAcked]
     split
     · rename_i next hnext
@@ -220,7 +220,7 @@ theorem acceptCore_inv {seen : Nat → Prop} (a : Acc) (op : TOp) (h : ∀ s ∈
       unfold ackedState at hc
       exact hmono s (foldOpt_inv (BrOK seen) _ (fun s r s' hf hp => brOK_packetAck s s' [r] hf hp) rs s0 s hc (h s0 hs0))
     · intro s hs; exact hmono s (h s hs)
-  | lost pns =>
+  | lost pns tm =>
     simp only [acceptCore, acceptLost]
     intro s hs
     have hs := dedup_subset _ _ hs
@@ -231,9 +231,7 @@ theorem accept_branches (a : Acc) (op : TOp) : (accept a op).1.branches = (accep
 
 theorem accept_isOk (a : Acc) (op : TOp) : (accept a op).2.isOk = (acceptCore a op).2.isOk := by
   simp only [accept]
-  cases (acceptCore a op).2 <;> cases op <;> (try rfl)
-  rename_i info t own ae obs m
-  cases obs <;> rfl
+  cases (acceptCore a op).2 <;> rfl
 
 theorem accept_inv {seen : Nat → Prop} (a : Acc) (op : TOp) (h : ∀ s ∈ a.branches, BrOK seen s) :
     ∀ s ∈ (accept a op).1.branches, BrOK (seenAfter seen op) s := by
